@@ -1,10 +1,10 @@
 #!/bin/bash
-# tools/run_all.sh <tier> : run every claimed check once, print one line per property with wall time
+# tools/run_all.sh <tier> : run every claimed check once, print one line per property with wall time and exit code
 TIER="${1:-quick}"
 cd "$(dirname "$0")/.."
 for p in $(python3 -c "import json;print(' '.join(c['property_id'] for c in json.load(open('MANIFEST.json'))['checks']))"); do
   s=$(date +%s)
-  out=$(timeout 7200 ./check $p --tier $TIER --no-evidence 2>&1 | tail -1 | cut -c1-170)
+  out=$(timeout 7200 ./check $p --tier $TIER --no-evidence 2>&1); rc=$?
   e=$(date +%s)
-  echo "$p $((e-s))s :: $out"
+  echo "$p $((e-s))s exit=$rc :: $(echo "$out" | tail -1 | cut -c1-150)"
 done
